@@ -2,6 +2,7 @@ import GModel.Basic
 import GModel.Collective
 import GModel.Counts
 import GModel.Split
+import GModel.Sites
 /-! line-protocol operations for C05, C12, C19 -/
 namespace G.Ops2
 open G
@@ -111,4 +112,35 @@ def table : List (String × Rd String) := [
   ("array-split", opArraySplit), ("bin-events", opBinEvents),
   ("traj-parts", opTrajParts), ("traj-parts-eq", opTrajPartsEq)
 ]
+end G.Ops2
+
+namespace G.Ops2
+open G
+/-- `assign lattice frac sites(with radius) pts` → site index per point, and the number of sites in range -/
+def opAssign : Rd String := do
+  let m ← rdM3
+  let frac ← rdRat
+  let sites ← rdList (do let s ← rdV3; let r ← rdRat; pure (s, r))
+  let pts ← rdList rdV3
+  let G := m.metric
+  let a := pts.map (Sites.assign G frac sites)
+  let n := pts.map (fun x => ((Sites.inRange G frac sites x).length : Int))
+  pure ("ok " ++ showInts a ++ " | " ++ showInts n)
+
+/-- `minpair lattice sites` → smallest squared site-site distance -/
+def opMinPair : Rd String := do
+  let m ← rdM3
+  let sites ← rdList rdV3
+  pure (match Sites.minPairSq m.metric sites with
+    | some d => "ok " ++ showRat d
+    | none => "ok none")
+
+/-- `pbcmany lattice a pts` → squared distances from `a` to each point -/
+def opPbcMany : Rd String := do
+  let m ← rdM3
+  let a ← rdV3
+  let pts ← rdList rdV3
+  pure ("ok " ++ showRats (pts.map (pbcDistSq m.metric a)))
+
+def table2 : List (String × Rd String) := [("assign", opAssign), ("minpair", opMinPair), ("pbcmany", opPbcMany)]
 end G.Ops2
